@@ -28,9 +28,9 @@ PID = "C06"
 
 ALL_MUTS = ["unkTemplate", "unkArg", "unkParRef", "unkParTmpl", "unkStep", "selfRef", "nonSibling", "missingArg",
             "missingWfArg", "missingEntry", "wfCycle", "badRef", "refToWf", "refToMissing", "dataCycle", "methodless",
-            "dupExec", "noExec", "execNoStep", "digitName", "unkEntry", "entryUnkArg"]
+            "dupExec", "noExec", "execNoStep", "digitName", "unkEntry", "entryUnkArg", "varShadowsParam"]
 
-INVARIANTS = ["TypeOK", "PathsUnique", "OnePerStep", "NoParamLeft", "BindingsAsDeclared", "FilesAsWritten", "RefsResolve", "Acyclic",
+INVARIANTS = ["TypeOK", "PathsUnique", "OnePerStep", "NoParamLeft", "BindingsAsDeclared", "VariablesArePrivate", "FilesAsWritten", "RefsResolve", "Acyclic",
               "RelationInduced", "ValidPartCompiles", "MutationsReject", "RejectedHasLocation"]
 
 HANG_CPU_SECONDS = 3.0      # a compilation takes ~5 ms; the timer counts CPU time of this process (ITIMER_VIRTUAL)
@@ -46,13 +46,13 @@ def constants(tier):
         c = dict(Depths=[1, 2, 3], Reuses=[0, 1, 2], Orders=["fwd", "rev"],
                  Namings=["homo", "dist", "prefix", "sufclash", "st0clash", "stage1"],
                  Spellings=["bareT", "meth", "in", "out", "q", "qcut", "dup", "two"], PassDowns=["bare", "sfx", "meth", "file"],
-                 Bindings=["dflt", "lit", "fwd", "dfwd", "ovr", "emb"], Muts=ALL_MUTS, MutNamings=["dist", "homo", "prefix"],
+                 Bindings=["dflt", "lit", "fwd", "dfwd", "ovr", "emb"], VarModes=["none", "priv", "shadow"], Muts=ALL_MUTS, MutNamings=["dist", "homo", "prefix"],
                  Full="TRUE")
     else:
         c = dict(Depths=[1, 2, 3], Reuses=[0, 1, 2], Orders=["fwd", "rev"],
                  Namings=["homo", "dist", "prefix", "sufclash", "st0clash", "stage1"],
                  Spellings=["bareT", "meth", "in", "out", "q", "qcut", "dup", "two"], PassDowns=["bare", "sfx", "meth", "file"],
-                 Bindings=["dflt", "lit", "fwd", "dfwd", "ovr", "emb"], Muts=ALL_MUTS, MutNamings=["dist", "homo"],
+                 Bindings=["dflt", "lit", "fwd", "dfwd", "ovr", "emb"], VarModes=["none", "priv", "shadow"], Muts=ALL_MUTS, MutNamings=["dist", "homo"],
                  Full="FALSE")
     return c
 
@@ -125,8 +125,11 @@ def render_namespace(ns):
             "steps": {s["name"]: s["tmpl"] for s in w["steps"]},
             "execute": [{"target": "<%s>" % e["target"], "args": {a["n"]: render_value(a["v"]) for a in e["args"]}} for e in w["exec"]]})
     for c in ns["comps"]:
-        doc["components"].append({"signature": {"name": c["name"], "parameters": render_params(c["params"])},
-                                  "command": {"executable": "echo", "arguments": render_value(c["args"])}})
+        comp = {"signature": {"name": c["name"], "parameters": render_params(c["params"])},
+                "command": {"executable": "echo", "arguments": render_value(c["args"])}}
+        if c["vars"]:
+            comp["variables"] = {v["n"]: v["v"] for v in c["vars"]}
+        doc["components"].append(comp)
     return doc
 
 
@@ -191,6 +194,8 @@ def render_resolved(tokens, names):
     for t in tokens:
         if t["k"] == "lit":
             out.append(t["s"])
+        elif t["k"] == "var":
+            out.append("%%(%s)s" % t["s"])       # a private variable of the component stays, FlowIR binds it
         elif t["k"] == "ref":
             stage, name = names[tuple(t["prod"])]
             s = "stage%d.%s" % (stage, name)
@@ -204,7 +209,7 @@ def render_resolved(tokens, names):
 
 def expected_component(inst, names):
     refs = sorted(set(render_resolved([r], names) for r in inst["refs"]))
-    return render_resolved(inst["args"], names), refs
+    return render_resolved(inst["args"], names), refs, {v["n"]: v["v"] for v in inst["vars"]}
 
 
 def topo(flat, edges):
@@ -232,6 +237,8 @@ def arg_pattern(inst):
     for t in inst["args"]:
         if t["k"] == "lit":
             rx.append(re.escape(t["s"]))
+        elif t["k"] == "var":
+            rx.append(re.escape("%%(%s)s" % t["s"]))
         elif t["k"] == "ref":
             prods.append(tuple(t["prod"]))
             rx.append(r"stage(\d+)\.([^/: ]+)" + re.escape("".join("/" + f for f in t["file"]) + ":" + t["m"]))
@@ -313,9 +320,9 @@ def first_difference(flat, edges, comps):
             c = cands[0]
             names[p] = c
             exp = expected_component(by_path[p], names)
-            aspect = "arguments" if exp[0] != comps[c][0] else "references"
-            return aspect, "instance %s (component stage%d.%s): specified arguments %r references %r, compiled arguments %r references %r" % (
-                "/".join(p), c[0], c[1], exp[0], exp[1], comps[c][0], comps[c][1])
+            aspect = "arguments" if exp[0] != comps[c][0] else "references" if exp[1] != comps[c][1] else "variables"
+            return aspect, "instance %s (component stage%d.%s): specified arguments %r references %r variables %r, compiled arguments %r references %r variables %r" % (
+                "/".join(p), c[0], c[1], exp[0], exp[1], exp[2], comps[c][0], comps[c][1], comps[c][2])
         names[p] = best
         used.add(best)
     return "instances", "no consistent one-to-one assignment of components %s to instances %s" % (sorted(comps), sorted(by_path))
@@ -437,7 +444,8 @@ class Runner:
             chk.violation("flatten:instances", "%d components %s for %d reachable component steps %s; choice %s" % (
                 len(ids), ids, len(flat), ["/".join(i["path"]) for i in flat], case["ch"]), rp)
             return
-        comps = {(c.get("stage", 0), c["name"]): (c["command"].get("arguments", ""), sorted(c.get("references", []))) for c in real}
+        comps = {(c.get("stage", 0), c["name"]): (c["command"].get("arguments", ""), sorted(c.get("references", [])),
+                                                  {k: str(v) for k, v in (c.get("variables") or {}).items()}) for c in real}
         names, nodes = match(flat, edges, comps, restrict=True)
         self.stats["match-nodes"] += nodes
         if names is None:
@@ -481,7 +489,7 @@ def run(tier):
     chk.add_tlc(r)
     # 1b. witness: the implementation's naming scheme, as modelled, is not injective on the family (expected to fail)
     small = dict(consts, Depths=[2], Reuses=[0], Orders=["fwd"], Namings=["sufclash", "st0clash"], Spellings=["bareT"],
-                 PassDowns=["bare"], Bindings=["dflt"], Muts=["unkStep"], MutNamings=["dist"], Full="FALSE")
+                 PassDowns=["bare"], Bindings=["dflt"], VarModes=["none"], Muts=["unkStep"], MutNamings=["dist"], Full="FALSE")
     c1b = write_cfg(os.path.join(gen, "Dsl_witness_%s.cfg" % tier), small, False, ["CodeNamingInjective"])
     rw = tlc.run_tlc("Dsl", c1b, timeout=300, expect_violation=True)
     if rw["violated"] != "CodeNamingInjective":
